@@ -119,6 +119,11 @@ pub fn fault_variant_oracle(vnote: &str, free_text: &str) -> Vec<String> {
     if vtext.chars().count() == 160 {
         return fails; // clipped: nothing reliable to compare
     }
+    // digested observations (`#T…`, `D<items>:…`, `D:…`) stand for the whole item list
+    let digested = |t: &str| t.starts_with("#T") || (t.starts_with('D') && t[1..].starts_with(|c: char| c == ':' || c.is_ascii_digit()));
+    if digested(vtext) || digested(free_text) {
+        return fails;
+    }
     let mut v: Vec<&str> = vtext.split('|').collect();
     let mut f: Vec<&str> = free_text.split('|').collect();
     let (vfin, ffin) = (v.pop().unwrap_or(""), f.pop().unwrap_or(""));
